@@ -130,6 +130,15 @@ func cliRun(c *core.Ctx, bin string, it Item, n int) (map[string]string, error) 
 			{"Mode": "dart", "Output": "x"},
 		},
 	}
+	// a second source file of the SAME package (same directory), when the program has one: the two files
+	// must be processed in a fixed order
+	other := strings.TrimSuffix(it.Source, "defs.go") + "extra.go"
+	if _, has := it.Files[other]; has && strings.HasSuffix(it.Source, "defs.go") {
+		conf[mod.Abs(other)] = []map[string]string{
+			{"Mode": "typescript/types", "Output": filepath.Join(outDir, "other.ts")},
+			{"Mode": "dart", "Output": "x"},
+		}
+	}
 	b, _ := json.Marshal(conf)
 	cf := filepath.Join(dir, "conf.json")
 	os.WriteFile(cf, b, 0o644)
@@ -237,7 +246,7 @@ func Run(c *core.Ctx, replay string) (*core.Result, error) {
 		}
 		for k := 0; k < cliN && k < len(items); k++ {
 			var runs []RunObs
-			for r := 0; r < 2; r++ {
+			for r := 0; r < 4; r++ {
 				hs, err := cliRun(c, bin, items[k], r)
 				if err != nil {
 					return nil, err
@@ -247,6 +256,15 @@ func Run(c *core.Ctx, replay string) (*core.Result, error) {
 					ro.Files = append(ro.Files, FileHash{Name: n, Sha: hs[n]})
 				}
 				runs = append(runs, ro)
+			}
+			failed := 0
+			for _, ro := range runs {
+				if len(ro.Files) == 1 && ro.Files[0].Name == "<exit>" {
+					failed++
+				}
+			}
+			if failed == len(runs) {
+				return nil, core.Inconcl("cmd/gomacro -config fails on program %d in every run (%s): the end-to-end comparison is vacuous", items[k].ID, runs[0].Files[0].Sha)
 			}
 			recs = append(recs, map[string]any{"case": items[k].ID, "target": "cmd/gomacro -config", "runs": runs})
 		}
@@ -301,7 +319,7 @@ func Run(c *core.Ctx, replay string) (*core.Result, error) {
 	res.Evaluations = comparisons
 	res.TracesVsImpl = len(recs)
 	res.Nontrivial = len(recs)
-	res.Rule = fmt.Sprintf("%d seeded random full-feature packages (>=3 imported packages per Go header, unions, several Dart files, a table struct) x 8 generator entry points + analysis, each repeated %d times in one process (fresh analysis) in each of %d processes, plus cmd/gomacro -config end to end twice on %d programs; one record per (program, target); evaluations = repetitions compared", len(items), rounds, procs, cliN)
+	res.Rule = fmt.Sprintf("%d seeded random full-feature packages (>=3 imported packages per Go header, unions, several Dart files, a table struct) x 8 generator entry points + analysis, each repeated %d times in one process (fresh analysis) in each of %d processes, plus cmd/gomacro -config end to end four times on %d programs (two source files of one package); one record per (program, target); evaluations = repetitions compared", len(items), rounds, procs, cliN)
 	res.Extra = map[string]any{"rounds_per_process": rounds, "processes": procs}
 	for i, r := range recs {
 		if i%17 == 0 {
